@@ -1,5 +1,814 @@
 package main
 
-import "verif/harness/internal/hx"
+// C20 driver: the two real sample plugins (built from <repo>/plugins/device-injector and
+// <repo>/plugins/ulimit-adjuster into a scratch directory) are launched as pre-installed
+// plugins of real Adaptations; CreateContainer requests carry generated pod annotations.
+// Annotation values are structured values rendered to one-line JSON (valid YAML), so what
+// each value decodes to is known without calling the decoder.
 
-func driveInjectors(c *hx.Ctx) error { return nil }
+import (
+	"context"
+	"encoding/json"
+	"fmt"
+	"math/rand"
+	"os"
+	"path/filepath"
+	"sort"
+	"strings"
+	"time"
+
+	"github.com/containerd/nri/pkg/adaptation"
+	"github.com/containerd/nri/pkg/api"
+	"google.golang.org/protobuf/proto"
+	"google.golang.org/protobuf/reflect/protoreflect"
+
+	"verif/harness/internal/coqfmt"
+	"verif/harness/internal/hx"
+)
+
+// ---------------------------------------------------------------- payload values
+
+type devV struct {
+	Path     string `json:"path"`
+	Type     string `json:"type"`
+	Major    int64  `json:"major"`
+	Minor    int64  `json:"minor"`
+	FileMode uint32 `json:"file_mode"`
+	UID      uint32 `json:"uid"`
+	GID      uint32 `json:"gid"`
+}
+type mntV struct {
+	Source      string   `json:"source"`
+	Destination string   `json:"destination"`
+	Type        string   `json:"type"`
+	Options     []string `json:"options"`
+}
+type ulV struct {
+	Type string `json:"type"`
+	Hard uint64 `json:"hard"`
+	Soft uint64 `json:"soft"`
+}
+
+// value is one annotation value with what it is expected to decode to (OK=false: malformed).
+type value struct {
+	Text string   `json:"text"`
+	Kind string   `json:"kind"` // dev | cdi | mnt | ul
+	OK   bool     `json:"ok"`
+	Devs []devV   `json:"devs,omitempty"`
+	CDI  []string `json:"cdi,omitempty"`
+	Mnts []mntV   `json:"mnts,omitempty"`
+	ULs  []ulV    `json:"uls,omitempty"`
+}
+
+// renderObj renders fields (name, JSON value) as a one-line JSON object: random order, zero
+// values sometimes left out, sometimes an unknown field added (the decoder is not strict).
+func renderObj(r *rand.Rand, fields [][2]string, zero map[string]bool) string {
+	var parts []string
+	for _, f := range fields {
+		if zero[f[0]] && r.Intn(2) == 0 {
+			continue
+		}
+		parts = append(parts, fmt.Sprintf("%q: %s", f[0], f[1]))
+	}
+	if r.Intn(8) == 0 {
+		parts = append(parts, `"comment": "ignored"`)
+	}
+	r.Shuffle(len(parts), func(i, j int) { parts[i], parts[j] = parts[j], parts[i] })
+	sep := []string{", ", ","}[r.Intn(2)]
+	return "{" + strings.Join(parts, sep) + "}"
+}
+
+func js(v interface{}) string { b, _ := json.Marshal(v); return string(b) }
+
+func renderList(r *rand.Rand, elems []string) string {
+	if len(elems) == 0 {
+		return []string{"[]", "", "null", "[ ]", "~"}[r.Intn(5)]
+	}
+	return "[" + strings.Join(elems, []string{", ", ","}[r.Intn(2)]) + "]"
+}
+
+var (
+	int64Pool  = []int64{0, 1, 2, 7, 10, 195, 254, 255, 256, 4095, 65535, 1 << 20, 1<<31 - 1, 1 << 31, 1<<53 + 1, 1<<63 - 1, -1, -7}
+	uint32Pool = []uint32{0, 0, 1, 420, 438, 511, 1000, 65534, 1<<31 - 1, 1 << 31, 1<<32 - 1}
+	uint64Pool = []uint64{0, 1, 2, 1023, 1024, 4096, 65536, 1 << 20, 1<<32 - 1, 1 << 32, 1<<53 + 1, 1<<63 - 1, 1 << 63, 1<<64 - 1}
+	devTypes   = []string{"c", "b", "p", "u", ""}
+	mntTypes   = []string{"bind", "tmpfs", "", "overlay"}
+	mntOpts    = []string{"ro", "rw", "bind", "rbind", "nosuid", "noexec", "mode=755", "size=64k"}
+)
+
+func genDevs(r *rand.Rand, tag string) value {
+	n := r.Intn(4)
+	v := value{Kind: "dev", OK: true, Devs: []devV{}}
+	var elems []string
+	for i := 0; i < n; i++ {
+		d := devV{Path: fmt.Sprintf("/dev/%s-%d", tag, i), Type: devTypes[r.Intn(len(devTypes))],
+			Major: int64Pool[r.Intn(len(int64Pool))], Minor: int64Pool[r.Intn(len(int64Pool))],
+			FileMode: uint32Pool[r.Intn(len(uint32Pool))], UID: uint32Pool[r.Intn(len(uint32Pool))], GID: uint32Pool[r.Intn(len(uint32Pool))]}
+		v.Devs = append(v.Devs, d)
+		elems = append(elems, renderObj(r, [][2]string{{"path", js(d.Path)}, {"type", js(d.Type)}, {"major", js(d.Major)}, {"minor", js(d.Minor)},
+			{"file_mode", js(d.FileMode)}, {"uid", js(d.UID)}, {"gid", js(d.GID)}},
+			map[string]bool{"type": d.Type == "", "major": d.Major == 0, "minor": d.Minor == 0, "file_mode": d.FileMode == 0, "uid": d.UID == 0, "gid": d.GID == 0}))
+	}
+	v.Text = renderList(r, elems)
+	return v
+}
+
+func genCDI(r *rand.Rand, tag string) value {
+	n := r.Intn(4)
+	v := value{Kind: "cdi", OK: true, CDI: []string{}}
+	var elems []string
+	for i := 0; i < n; i++ {
+		s := fmt.Sprintf("vendor%d.com/%s=dev%d", r.Intn(3), tag, i)
+		v.CDI = append(v.CDI, s)
+		elems = append(elems, js(s))
+	}
+	v.Text = renderList(r, elems)
+	return v
+}
+
+func genMnts(r *rand.Rand, tag string) value {
+	n := r.Intn(4)
+	v := value{Kind: "mnt", OK: true, Mnts: []mntV{}}
+	var elems []string
+	for i := 0; i < n; i++ {
+		m := mntV{Source: fmt.Sprintf("/host/%s/%d", tag, r.Intn(9)), Destination: fmt.Sprintf("/mnt/%s/%d", tag, i), Type: mntTypes[r.Intn(len(mntTypes))], Options: []string{}}
+		for k := r.Intn(4); k > 0; k-- {
+			m.Options = append(m.Options, mntOpts[r.Intn(len(mntOpts))])
+		}
+		v.Mnts = append(v.Mnts, m)
+		elems = append(elems, renderObj(r, [][2]string{{"source", js(m.Source)}, {"destination", js(m.Destination)}, {"type", js(m.Type)}, {"options", js(m.Options)}},
+			map[string]bool{"type": m.Type == "", "options": len(m.Options) == 0}))
+	}
+	v.Text = renderList(r, elems)
+	return v
+}
+
+var malformedByKind = map[string][]string{
+	"dev": {"{", "[", "[}", `{"path": "/dev/x"}`, `"/dev/x"`, "/dev/x", "[1, 2]", `[{"major": "x"}]`, `[{"file_mode": -1}]`, `[{"path": ["/dev/x"]}]`, `[{"uid": 4294967296}]`, `[{"path": "/dev/a"}, 5]`, `[{"path": "/dev/a"}`, "- [", `{"devices": []}`},
+	"cdi": {"{", "[", "[}", `{"name": "x"}`, `"vendor.com/class=dev"`, "vendor.com/class=dev", `[["a"]]`, `[{"name": "a"}]`, `["a", {"b": 1}]`, `["a"`},
+	"mnt": {"{", "[", "[}", `{"source": "/a"}`, `"/a"`, "[1]", `[{"options": "ro"}]`, `[{"options": [["ro"]]}]`, `[{"destination": ["/a"]}]`, `[{"source": "/a", "destination": "/b"}, "x"]`, `[{"source": "/a"`},
+	"ul":  {"{", "[", "[}", `{"type": "nofile"}`, `"nofile"`, "nofile", "[1]", `[{"type": ["nofile"]}]`, `[{"type": "nofile", "hard": -1}]`, `[{"type": "nofile", "hard": "many"}]`, `[{"type": "nofile", "soft": 18446744073709551616}]`, `[{"type": "nofile", "hard": 1.5}]`, `[{"type": "nofile"}`},
+}
+
+func genMalformed(r *rand.Rand, kind string) value {
+	l := malformedByKind[kind]
+	return value{Kind: kind, OK: false, Text: l[r.Intn(len(l))]}
+}
+
+var (
+	validRlimits = []string{"AS", "CORE", "CPU", "DATA", "FSIZE", "LOCKS", "MEMLOCK", "MSGQUEUE", "NICE", "NOFILE", "NPROC", "RSS", "RTPRIO", "RTTIME", "SIGPENDING", "STACK"}
+	bogusRlimits = []string{"bogus", "RLIMIT_", "", "NOFILES", "RLIMIT_RLIMIT_CPU", " cpu", "cpu ", "RLIMIT-CPU", "R_CPU", "LIMIT_CPU", "rlimitcpu", "A", "RLIMIT_A S"}
+)
+
+func mixCase(r *rand.Rand, s string) string {
+	b := []byte(s)
+	for i := range b {
+		if r.Intn(2) == 0 && b[i] >= 'A' && b[i] <= 'Z' {
+			b[i] += 32
+		}
+	}
+	return string(b)
+}
+
+func spellRlimit(r *rand.Rand, name string) string {
+	switch r.Intn(6) {
+	case 0:
+		return name
+	case 1:
+		return strings.ToLower(name)
+	case 2:
+		return "RLIMIT_" + name
+	case 3:
+		return "rlimit_" + strings.ToLower(name)
+	default:
+		return mixCase(r, []string{"", "RLIMIT_"}[r.Intn(2)]+name)
+	}
+}
+
+// genULs: mode 0 = all entries fine; 1 = one unknown type; 2 = one hard < soft
+func genULs(r *rand.Rand, mode int) value {
+	n := r.Intn(4)
+	if mode != 0 {
+		n = 1 + r.Intn(4)
+	}
+	bad := r.Intn(n + 1)
+	v := value{Kind: "ul", OK: true, ULs: []ulV{}}
+	perm := r.Perm(len(validRlimits))
+	var elems []string
+	for i := 0; i < n; i++ {
+		a, b := uint64Pool[r.Intn(len(uint64Pool))], uint64Pool[r.Intn(len(uint64Pool))]
+		if a < b {
+			a, b = b, a
+		}
+		u := ulV{Type: spellRlimit(r, validRlimits[perm[i]]), Hard: a, Soft: b}
+		if i == bad%n && mode == 1 {
+			u.Type = bogusRlimits[r.Intn(len(bogusRlimits))]
+		}
+		if i == bad%n && mode == 2 {
+			for u.Hard >= u.Soft {
+				u.Hard, u.Soft = uint64Pool[r.Intn(len(uint64Pool)-1)], uint64Pool[1+r.Intn(len(uint64Pool)-1)]
+			}
+		}
+		v.ULs = append(v.ULs, u)
+		elems = append(elems, renderObj(r, [][2]string{{"type", js(u.Type)}, {"hard", js(u.Hard)}, {"soft", js(u.Soft)}},
+			map[string]bool{"type": u.Type == "", "hard": u.Hard == 0, "soft": u.Soft == 0}))
+	}
+	v.Text = renderList(r, elems)
+	return v
+}
+
+// ---------------------------------------------------------------- cases
+
+type adjObs struct {
+	Devices []devObs `json:"devices"`
+	CDI     []string `json:"cdi"`
+	Mounts  []mntV   `json:"mounts"`
+	Rlimits []ulV    `json:"rlimits"`
+	Rest    bool     `json:"rest_empty"`
+	Raw     string   `json:"raw,omitempty"`
+}
+type devObs struct {
+	Path     string  `json:"path"`
+	Type     string  `json:"type"`
+	Major    int64   `json:"major"`
+	Minor    int64   `json:"minor"`
+	FileMode *uint32 `json:"file_mode"`
+	UID      *uint32 `json:"uid"`
+	GID      *uint32 `json:"gid"`
+}
+
+type injCase struct {
+	Plugin string            `json:"plugin"`
+	Stream string            `json:"stream"`
+	Ctr    string            `json:"ctr"`
+	Ann    map[string]string `json:"annotations"`
+	Values map[string]value  `json:"values"` // by annotation key
+	OK     bool              `json:"ok"`
+	Err    string            `json:"err"`
+	Adj    adjObs            `json:"adjust"`
+	Levels map[string]string `json:"selected"` // main key -> container | pod | bare | none
+}
+
+var (
+	ctrNames = []string{"c0", "c", "c00", "c0.x", "app", "app2", "ap", "a", "", "pod", "container.c0", "c0/pod", "web-1", "web-10", "Web-1", "x y"}
+	diMains  = map[string]string{"dev": "devices.nri.io", "cdi": "cdi-devices.nri.io", "mnt": "mounts.nri.io"}
+	ulMain   = "ulimits.nri.containerd.io"
+)
+
+func others(r *rand.Rand, ctr string, prefixRelated bool) []string {
+	var out []string
+	if prefixRelated {
+		// names that extend or shorten this one
+		out = append(out, ctr+"0", ctr+".x", ctr+ctr)
+		if len(ctr) > 1 {
+			out = append(out, ctr[:len(ctr)-1], ctr[1:])
+		}
+	}
+	for k := r.Intn(3); k > 0; k-- {
+		out = append(out, ctrNames[r.Intn(len(ctrNames))])
+	}
+	var res []string
+	seen := map[string]bool{ctr: true}
+	for _, o := range out {
+		if !seen[o] {
+			seen[o] = true
+			res = append(res, o)
+		}
+	}
+	return res
+}
+
+func decoys(main, ctr string) []string {
+	return []string{main + "/container", main + "/containers." + ctr, main + "/pod/", "x" + main, main + "/Container." + ctr,
+		main + "/container." + ctr + " ", main + ".", strings.ToUpper(main), main + "/pods", main + "/container/" + ctr}
+}
+
+// genInjCase: stream = main | malformed | prefix
+func genInjCase(r *rand.Rand, stream string, i int) *injCase {
+	cs := &injCase{Plugin: "device-injector", Stream: stream, Ctr: ctrNames[r.Intn(len(ctrNames))], Ann: map[string]string{}, Values: map[string]value{}, Levels: map[string]string{}}
+	pBad := 3
+	if stream == "malformed" {
+		pBad = 30
+	}
+	gen := func(kind, tag string) value {
+		if r.Intn(100) < pBad {
+			return genMalformed(r, kind)
+		}
+		switch kind {
+		case "dev":
+			return genDevs(r, tag)
+		case "cdi":
+			return genCDI(r, tag)
+		}
+		return genMnts(r, tag)
+	}
+	n := 0
+	for _, kind := range []string{"dev", "cdi", "mnt"} {
+		main := diMains[kind]
+		put := func(key, tag string) {
+			n++
+			v := gen(kind, fmt.Sprintf("%s%d", tag, n))
+			cs.Ann[key], cs.Values[key] = v.Text, v
+		}
+		if r.Intn(100) < 55 {
+			put(main+"/container."+cs.Ctr, "own")
+		}
+		for _, o := range others(r, cs.Ctr, stream == "prefix") {
+			if r.Intn(100) < 60 {
+				put(main+"/container."+o, "other")
+			}
+		}
+		if r.Intn(100) < 40 {
+			put(main+"/pod", "pod")
+		}
+		if r.Intn(100) < 40 {
+			put(main, "bare")
+		}
+		for _, d := range decoys(main, cs.Ctr) {
+			if r.Intn(100) < 8 {
+				put(d, "decoy")
+			}
+		}
+	}
+	if r.Intn(4) == 0 {
+		cs.Ann["io.kubernetes.cri.sandbox-name"] = "pod0"
+	}
+	return cs
+}
+
+// genUlCase: stream = main | errors | prefix
+func genUlCase(r *rand.Rand, stream string, i int) *injCase {
+	cs := &injCase{Plugin: "ulimit-adjuster", Stream: stream, Ctr: ctrNames[r.Intn(len(ctrNames))], Ann: map[string]string{}, Values: map[string]value{}, Levels: map[string]string{}}
+	gen := func(own bool) value {
+		mode := 0
+		if stream == "errors" && own {
+			mode = []int{1, 2, 3, 1, 2, 0}[i%6]
+		} else if r.Intn(100) < 12 {
+			mode = 1 + r.Intn(3)
+		}
+		if mode == 3 {
+			return genMalformed(r, "ul")
+		}
+		return genULs(r, mode)
+	}
+	put := func(key string, own bool) {
+		v := gen(own)
+		cs.Ann[key], cs.Values[key] = v.Text, v
+	}
+	if stream == "errors" || r.Intn(100) < 65 {
+		put(ulMain+"/container."+cs.Ctr, true)
+	}
+	for _, o := range others(r, cs.Ctr, stream == "prefix") {
+		if r.Intn(100) < 60 {
+			put(ulMain+"/container."+o, false)
+		}
+	}
+	if r.Intn(100) < 35 {
+		put(ulMain+"/pod", false)
+	}
+	if r.Intn(100) < 35 {
+		put(ulMain, false)
+	}
+	for _, d := range decoys(ulMain, cs.Ctr) {
+		if r.Intn(100) < 8 {
+			put(d, false)
+		}
+	}
+	return cs
+}
+
+// ---------------------------------------------------------------- the statement's oracle, in Go
+
+type expectation struct {
+	ok   bool
+	devs []devV
+	cdi  []string
+	mnts []mntV
+	uls  []ulV
+}
+
+func (cs *injCase) pick(main string) (string, string, bool) {
+	for _, lk := range [][2]string{{"container", main + "/container." + cs.Ctr}, {"pod", main + "/pod"}, {"bare", main}} {
+		if _, ok := cs.Ann[lk[1]]; ok {
+			return lk[0], lk[1], true
+		}
+	}
+	return "none", "", false
+}
+
+func (cs *injCase) expect() expectation {
+	e := expectation{ok: true}
+	if cs.Plugin == "device-injector" {
+		for _, kind := range []string{"dev", "cdi", "mnt"} {
+			lvl, key, found := cs.pick(diMains[kind])
+			cs.Levels[kind] = lvl
+			if !found {
+				continue
+			}
+			v := cs.Values[key]
+			if !v.OK {
+				e.ok = false
+				continue
+			}
+			e.devs, e.cdi, e.mnts = append(e.devs, v.Devs...), append(e.cdi, v.CDI...), append(e.mnts, v.Mnts...)
+		}
+		return e
+	}
+	key := ulMain + "/container." + cs.Ctr
+	cs.Levels["ul"] = "none"
+	if _, found := cs.Ann[key]; !found {
+		return e
+	}
+	cs.Levels["ul"] = "container"
+	v := cs.Values[key]
+	if !v.OK {
+		e.ok = false
+		return e
+	}
+	for _, u := range v.ULs {
+		t := strings.TrimPrefix(strings.ToUpper(u.Type), "RLIMIT_")
+		known := false
+		for _, n := range validRlimits {
+			known = known || n == t
+		}
+		if !known || u.Hard < u.Soft {
+			e.ok = false
+			return e
+		}
+		e.uls = append(e.uls, ulV{Type: "RLIMIT_" + t, Hard: u.Hard, Soft: u.Soft})
+	}
+	return e
+}
+
+func (cs *injCase) judge(e expectation) []string {
+	var bad []string
+	if e.ok != cs.OK {
+		return []string{fmt.Sprintf("expected success=%v, observed success=%v (%s)", e.ok, cs.OK, cs.Err)}
+	}
+	if !cs.OK {
+		return nil
+	}
+	if !cs.Adj.Rest {
+		bad = append(bad, "the adjustment carries something else: "+cs.Adj.Raw)
+	}
+	var ed []devObs
+	for _, d := range e.devs {
+		o := devObs{Path: d.Path, Type: d.Type, Major: d.Major, Minor: d.Minor}
+		if d.FileMode != 0 {
+			v := d.FileMode
+			o.FileMode = &v
+		}
+		if d.UID != 0 {
+			v := d.UID
+			o.UID = &v
+		}
+		if d.GID != 0 {
+			v := d.GID
+			o.GID = &v
+		}
+		ed = append(ed, o)
+	}
+	if js(ed) != js(cs.Adj.Devices) && !(len(ed) == 0 && len(cs.Adj.Devices) == 0) {
+		bad = append(bad, fmt.Sprintf("devices %s, expected %s", js(cs.Adj.Devices), js(ed)))
+	}
+	if strings.Join(e.cdi, "\x00") != strings.Join(cs.Adj.CDI, "\x00") {
+		bad = append(bad, fmt.Sprintf("CDI devices %q, expected %q", cs.Adj.CDI, e.cdi))
+	}
+	if js(e.mnts) != js(cs.Adj.Mounts) && !(len(e.mnts) == 0 && len(cs.Adj.Mounts) == 0) {
+		bad = append(bad, fmt.Sprintf("mounts %s, expected %s", js(cs.Adj.Mounts), js(e.mnts)))
+	}
+	if js(e.uls) != js(cs.Adj.Rlimits) && !(len(e.uls) == 0 && len(cs.Adj.Rlimits) == 0) {
+		bad = append(bad, fmt.Sprintf("rlimits %s, expected %s", js(cs.Adj.Rlimits), js(e.uls)))
+	}
+	return bad
+}
+
+// ---------------------------------------------------------------- Coq rendering
+
+func zOpt32(p *uint32) string {
+	if p == nil {
+		return "None"
+	}
+	return "(Some " + coqfmt.ZU(uint64(*p)) + ")"
+}
+
+func (a adjObs) coq() string {
+	var ds, ms, rs []string
+	for _, d := range a.Devices {
+		ds = append(ds, fmt.Sprintf("{| nd_path := %s; nd_type := %s; nd_major := %s; nd_minor := %s; nd_file_mode := %s; nd_uid := %s; nd_gid := %s |}",
+			coqfmt.Str(d.Path), coqfmt.Str(d.Type), coqfmt.Z(d.Major), coqfmt.Z(d.Minor), zOpt32(d.FileMode), zOpt32(d.UID), zOpt32(d.GID)))
+	}
+	for _, m := range a.Mounts {
+		ms = append(ms, fmt.Sprintf("{| nm_destination := %s; nm_type := %s; nm_source := %s; nm_options := %s |}",
+			coqfmt.Str(m.Destination), coqfmt.Str(m.Type), coqfmt.Str(m.Source), coqfmt.StrList(m.Options)))
+	}
+	for _, l := range a.Rlimits {
+		rs = append(rs, fmt.Sprintf("{| rl_type := %s; rl_hard := %s; rl_soft := %s |}", coqfmt.Str(l.Type), coqfmt.ZU(l.Hard), coqfmt.ZU(l.Soft)))
+	}
+	return fmt.Sprintf("{| adj_devices := %s; adj_cdi := %s; adj_mounts := %s; adj_rlimits := %s |}",
+		coqfmt.List(ds), coqfmt.StrList(a.CDI), coqfmt.List(ms), coqfmt.List(rs))
+}
+
+func (v value) coqPayload() string {
+	if !v.OK {
+		return "None"
+	}
+	var l []string
+	switch v.Kind {
+	case "dev":
+		for _, d := range v.Devs {
+			l = append(l, fmt.Sprintf("{| dv_path := %s; dv_type := %s; dv_major := %s; dv_minor := %s; dv_file_mode := %s; dv_uid := %s; dv_gid := %s |}",
+				coqfmt.Str(d.Path), coqfmt.Str(d.Type), coqfmt.Z(d.Major), coqfmt.Z(d.Minor), coqfmt.ZU(uint64(d.FileMode)), coqfmt.ZU(uint64(d.UID)), coqfmt.ZU(uint64(d.GID))))
+		}
+	case "cdi":
+		return "(Some " + coqfmt.StrList(v.CDI) + ")"
+	case "mnt":
+		for _, m := range v.Mnts {
+			l = append(l, fmt.Sprintf("{| mt_source := %s; mt_destination := %s; mt_type := %s; mt_options := %s |}",
+				coqfmt.Str(m.Source), coqfmt.Str(m.Destination), coqfmt.Str(m.Type), coqfmt.StrList(m.Options)))
+		}
+	case "ul":
+		for _, u := range v.ULs {
+			l = append(l, fmt.Sprintf("{| ul_type := %s; ul_hard := %s; ul_soft := %s |}", coqfmt.Str(u.Type), coqfmt.ZU(u.Hard), coqfmt.ZU(u.Soft)))
+		}
+	}
+	return "(Some " + coqfmt.List(l) + ")"
+}
+
+// tables: value text -> payload, one table per kind.  Two keys of one kind may carry the same text only
+// with the same meaning (the text determines the payload); a text generated both as a payload and as a
+// malformed value cannot occur (malformed texts never parse as lists).
+func (cs *injCase) table(kind string) string {
+	keys := []string{}
+	for k := range cs.Values {
+		keys = append(keys, k)
+	}
+	sort.Strings(keys)
+	seen := map[string]bool{}
+	var out []string
+	for _, k := range keys {
+		v := cs.Values[k]
+		if v.Kind != kind || seen[v.Text] {
+			continue
+		}
+		seen[v.Text] = true
+		out = append(out, coqfmt.Pair(coqfmt.Str(v.Text), v.coqPayload()))
+	}
+	return coqfmt.List(out)
+}
+
+func (cs *injCase) coq() string {
+	res := "None"
+	if cs.OK {
+		res = "(Some " + cs.Adj.coq() + ")"
+	}
+	if cs.Plugin == "device-injector" {
+		return fmt.Sprintf("{| ic_ctr := %s; ic_ann := %s; ic_dev := %s; ic_cdi := %s; ic_mnt := %s; ic_result := %s; ic_rest_empty := %s |}",
+			coqfmt.Str(cs.Ctr), coqfmt.StrMap(cs.Ann, nil), cs.table("dev"), cs.table("cdi"), cs.table("mnt"), res, coqfmt.Bool(!cs.OK || cs.Adj.Rest))
+	}
+	return fmt.Sprintf("{| uc_ctr := %s; uc_ann := %s; uc_ul := %s; uc_result := %s; uc_rest_empty := %s |}",
+		coqfmt.Str(cs.Ctr), coqfmt.StrMap(cs.Ann, nil), cs.table("ul"), res, coqfmt.Bool(!cs.OK || cs.Adj.Rest))
+}
+
+// ---------------------------------------------------------------- running
+
+type pluginHost struct {
+	a    *adaptation.Adaptation
+	name string
+	n    int
+}
+
+func startHost(scratch, binary, name string) (*pluginHost, error) {
+	dir := filepath.Join(scratch, "host-"+name)
+	plug, drop := filepath.Join(dir, "plugins"), filepath.Join(dir, "conf.d")
+	for _, d := range []string{plug, drop} {
+		if err := os.MkdirAll(d, 0o755); err != nil {
+			return nil, err
+		}
+	}
+	if err := os.Link(binary, filepath.Join(plug, filepath.Base(binary))); err != nil {
+		return nil, err
+	}
+	syncFn := func(ctx context.Context, cb adaptation.SyncCB) error {
+		_, err := cb(ctx, nil, nil)
+		return err
+	}
+	updateFn := func(context.Context, []*api.ContainerUpdate) ([]*api.ContainerUpdate, error) { return nil, nil }
+	a, err := adaptation.New("verif-runtime", "v0", syncFn, updateFn,
+		adaptation.WithPluginPath(plug), adaptation.WithPluginConfigPath(drop), adaptation.WithDisabledExternalConnections())
+	if err != nil {
+		return nil, err
+	}
+	if err := a.Start(); err != nil {
+		return nil, err
+	}
+	return &pluginHost{a: a, name: name}, nil
+}
+
+func u32p(v uint32) *uint32 { return &v }
+
+// emptyDeep: no scalar, no list element, no map entry anywhere below m.
+func emptyDeep(m protoreflect.Message) bool {
+	empty := true
+	m.Range(func(fd protoreflect.FieldDescriptor, v protoreflect.Value) bool {
+		switch {
+		case fd.IsList():
+			empty = v.List().Len() == 0
+		case fd.IsMap():
+			empty = v.Map().Len() == 0
+		case fd.Message() != nil:
+			empty = emptyDeep(v.Message())
+		default:
+			empty = false
+		}
+		return empty
+	})
+	return empty
+}
+
+func (h *pluginHost) create(cs *injCase) {
+	h.n++
+	req := &api.CreateContainerRequest{
+		Pod:       &api.PodSandbox{Id: "pod0", Name: "pod0", Namespace: "default", Annotations: cs.Ann},
+		Container: &api.Container{Id: fmt.Sprintf("ctr%d", h.n), PodSandboxId: "pod0", Name: cs.Ctr},
+	}
+	rsp, err := h.a.CreateContainer(context.Background(), req)
+	if err != nil {
+		cs.OK, cs.Err = false, err.Error()
+		return
+	}
+	cs.OK = true
+	o := adjObs{Devices: []devObs{}, CDI: []string{}, Mounts: []mntV{}, Rlimits: []ulV{}}
+	adj := rsp.GetAdjust()
+	for _, d := range adj.GetLinux().GetDevices() {
+		do := devObs{Path: d.Path, Type: d.Type, Major: d.Major, Minor: d.Minor}
+		if d.FileMode != nil {
+			do.FileMode = u32p(d.FileMode.Value)
+		}
+		if d.Uid != nil {
+			do.UID = u32p(d.Uid.Value)
+		}
+		if d.Gid != nil {
+			do.GID = u32p(d.Gid.Value)
+		}
+		o.Devices = append(o.Devices, do)
+	}
+	for _, c := range adj.GetCDIDevices() {
+		o.CDI = append(o.CDI, c.Name)
+	}
+	for _, m := range adj.GetMounts() {
+		mo := mntV{Source: m.Source, Destination: m.Destination, Type: m.Type, Options: append([]string{}, m.Options...)}
+		o.Mounts = append(o.Mounts, mo)
+	}
+	for _, l := range adj.GetRlimits() {
+		o.Rlimits = append(o.Rlimits, ulV{Type: l.Type, Hard: l.Hard, Soft: l.Soft})
+	}
+	// anything else in the response?  (sub-messages that are present but empty count as absent)
+	rest := proto.Clone(rsp).(*api.CreateContainerResponse)
+	if rest.Adjust != nil {
+		rest.Adjust.Mounts, rest.Adjust.CDIDevices, rest.Adjust.Rlimits = nil, nil, nil
+		if rest.Adjust.Linux != nil {
+			rest.Adjust.Linux.Devices = nil
+		}
+	}
+	o.Rest = emptyDeep(rest.ProtoReflect())
+	if !o.Rest {
+		o.Raw = rest.String()
+	}
+	cs.Adj = o
+}
+
+func driveInjectors(c *hx.Ctx) error {
+	scratch, err := os.MkdirTemp("", "h_launch_c20_")
+	if err != nil {
+		return err
+	}
+	defer os.RemoveAll(scratch)
+	t0 := time.Now()
+	bins := map[string]string{}
+	for name, sub := range map[string]string{"10-device-injector": "plugins/device-injector", "20-ulimit-adjuster": "plugins/ulimit-adjuster"} {
+		out := filepath.Join(scratch, "bin", name)
+		if err := os.MkdirAll(filepath.Dir(out), 0o755); err != nil {
+			return err
+		}
+		// the plugins are modules of their own (replace => ../..); -mod=readonly: nothing is ever written into the repository
+		if err := goBuildIn(filepath.Join(c.Repo, sub), out); err != nil {
+			return err
+		}
+		bins[name] = out
+	}
+	buildMs := time.Since(t0).Milliseconds()
+	adaptation.SetPluginRegistrationTimeout(30 * time.Second)
+	adaptation.SetPluginRequestTimeout(30 * time.Second)
+	di, err := startHost(scratch, bins["10-device-injector"], "device-injector")
+	if err != nil {
+		return fmt.Errorf("start device-injector host: %w", err)
+	}
+	defer di.a.Stop()
+	ul, err := startHost(scratch, bins["20-ulimit-adjuster"], "ulimit-adjuster")
+	if err != nil {
+		return fmt.Errorf("start ulimit-adjuster host: %w", err)
+	}
+	defer ul.a.Stop()
+
+	// the plugins must really be there: a request they are known to answer
+	probeDI := &injCase{Plugin: "device-injector", Ctr: "probe", Ann: map[string]string{"cdi-devices.nri.io/container.probe": `["vendor.com/class=probe"]`}}
+	di.create(probeDI)
+	probeUL := &injCase{Plugin: "ulimit-adjuster", Ctr: "probe", Ann: map[string]string{"ulimits.nri.containerd.io/container.probe": `[{"type": "nofile", "hard": 2, "soft": 1}]`}}
+	ul.create(probeUL)
+	if !probeDI.OK || len(probeDI.Adj.CDI) != 1 || !probeUL.OK || len(probeUL.Adj.Rlimits) != 1 {
+		return fmt.Errorf("the launched plugins do not answer: device-injector %+v, ulimit-adjuster %+v", probeDI, probeUL)
+	}
+
+	imports := "From NRI Require Import Model.Injectors Run.Common Run.RunInjectors."
+	type stream struct {
+		plugin, name string
+		n            int
+	}
+	streams := []stream{
+		{"device-injector", "main", c.Pick(500, 6000)},
+		{"device-injector", "malformed", c.Pick(300, 3000)},
+		{"device-injector", "prefix", c.Pick(300, 3000)},
+		{"ulimit-adjuster", "main", c.Pick(400, 5000)},
+		{"ulimit-adjuster", "errors", c.Pick(300, 3000)},
+		{"ulimit-adjuster", "prefix", c.Pick(200, 2000)},
+	}
+	failing := 0
+	for _, s := range streams {
+		short := map[string]string{"device-injector": "inj", "ulimit-adjuster": "ul"}[s.plugin]
+		r := c.Rand("injectors/" + short + "/" + s.name)
+		typ, corr, holds := "inj_case", "corr_inj", "holds_inj"
+		if short == "ul" {
+			typ, corr, holds = "ul_case", "corr_ul", "holds_ul"
+		}
+		sh := c.NewShard(short+"_"+s.name, imports, typ, corr, holds, 500)
+		for i := 0; i < s.n; i++ {
+			var cs *injCase
+			if short == "inj" {
+				cs = genInjCase(r, s.name, i)
+				di.create(cs)
+			} else {
+				cs = genUlCase(r, s.name, i)
+				ul.create(cs)
+			}
+			e := cs.expect()
+			bad := cs.judge(e)
+			sh.Add(cs.coq(), cs)
+			nontrivial := false
+			for k, lvl := range cs.Levels {
+				c.Count("c20."+short+".selected."+k+"."+lvl, 1)
+				nontrivial = nontrivial || lvl != "none"
+			}
+			foreign := 0
+			for k := range cs.Ann {
+				if strings.Contains(k, "/container.") && !strings.HasSuffix(k, "/container."+cs.Ctr) {
+					foreign++
+				}
+			}
+			c.Count("c20."+short+".foreign_container_keys", foreign)
+			c.Count("c20."+short+".annotations", len(cs.Ann))
+			for _, v := range cs.Values {
+				if !v.OK {
+					c.Count("c20."+short+".malformed_values", 1)
+				}
+			}
+			if e.ok {
+				c.Count("c20."+short+".expected.ok", 1)
+			} else {
+				c.Count("c20."+short+".expected.error", 1)
+			}
+			c.Count("c20.cases."+short+"."+s.name, 1)
+			c.Eval(fmt.Sprintf("%s/%s/%s/%v", short, s.name, cs.Ctr, cs.Ann), nontrivial || foreign > 0)
+			if len(bad) > 0 {
+				failing++
+				c.ImplFail(short+"_"+s.name, strings.Join(bad, "; "), cs)
+			}
+			if i < 2 {
+				c.Sample(map[string]interface{}{"plugin": s.plugin, "stream": s.name, "container": cs.Ctr, "annotations": cs.Ann, "ok": cs.OK, "adjust": cs.Adj, "selected": cs.Levels}, 10)
+			}
+		}
+	}
+	d := c.Stats.Distribution
+	for _, k := range []string{"c20.inj.selected.dev.container", "c20.inj.selected.dev.pod", "c20.inj.selected.dev.bare", "c20.inj.selected.mnt.container",
+		"c20.inj.selected.cdi.pod", "c20.inj.expected.error", "c20.ul.expected.error", "c20.ul.selected.ul.container", "c20.inj.foreign_container_keys", "c20.ul.foreign_container_keys"} {
+		if d[k] == 0 {
+			c.HarnessError("injector streams missed their target shape: %s = 0", k)
+		}
+	}
+	c.Stats.Extra = map[string]interface{}{"plugin_build_ms": buildMs, "cases_failing_go_oracle": failing,
+		"trusted": "sigs.k8s.io/yaml is assumed to decode the rendered one-line JSON to the value it was rendered from, and to reject the malformed texts"}
+	c.Stats.Rule = "pod annotation maps mixing keys for this container, other containers (random and prefix-related names), pod scope, the bare key and near-miss decoy keys, under each main key; values = structured payloads (boundary integers, optional fields left out, unknown fields) rendered to one-line JSON, or malformed texts; sent as CreateContainer through a real Adaptation to the real plugin binaries; a case is non-trivial when some annotation applies to the container or some key addresses another container"
+	return nil
+}
+
+// goBuildIn builds the main package of dir into out without ever writing into dir.
+func goBuildIn(dir, out string) error {
+	env := []string{}
+	for _, kv := range os.Environ() {
+		if !strings.HasPrefix(kv, "GOFLAGS=") {
+			env = append(env, kv)
+		}
+	}
+	env = append(env, "GOFLAGS=-mod=readonly", "GOPROXY=off", "GOSUMDB=off", "GOTOOLCHAIN=local", "CGO_ENABLED=0")
+	return runGo(dir, env, "build", "-o", out, ".")
+}
